@@ -113,7 +113,6 @@ struct Local {
     counters: BTreeMap<String, u64>,
     violations: Vec<Violation>,
     samples: Vec<Value>,
-    f26_seen: Vec<String>,
     /// (last written char, first char of the next push) seen at `push_space_if_needed` in real
     /// dense runs, restricted to pairs of the break table's TRUE entries
     exercised: std::collections::BTreeSet<(u8, u8)>,
@@ -191,10 +190,6 @@ fn check_tree(model: &mut Model, family: &str, blk: &Blk, spans: &[usize], local
         }
     };
     let expected = norm_block(blk);
-    let f26 = in_f26_region(blk);
-    if f26 {
-        local.hist("family", "outside-H3 (printer-added `)` before a `(`-statement without `;`)");
-    }
     local.hist("family", family);
     let mut seen_text: HashMap<String, ()> = HashMap::new();
     let mut nontrivial = false;
@@ -282,12 +277,6 @@ fn check_tree(model: &mut Model, family: &str, blk: &Blk, spans: &[usize], local
                     }
                 };
                 if let Some(msg) = failure {
-                    if f26 {
-                        if !local.f26_seen.iter().any(|t| t == &run.text) && local.f26_seen.len() < 4 {
-                            local.f26_seen.push(run.text.clone());
-                        }
-                        continue;
-                    }
                     local.violations.push(Violation {
                         kind: "oracle".into(),
                         check: format!("reparse-{}", who),
@@ -783,7 +772,6 @@ pub fn run(report: &mut Report, replay: Option<&str>) {
             .collect();
         handles.into_iter().map(|h| h.join().expect("worker panicked")).collect()
     });
-    let mut f26_texts: Vec<String> = Vec::new();
     let mut exercised: std::collections::BTreeSet<(u8, u8)> = Default::default();
     // smallest failing inputs first (the report keeps a handful per check)
     let mut locals = locals;
@@ -794,7 +782,6 @@ pub fn run(report: &mut Report, replay: Option<&str>) {
     }
     for local in locals {
         exercised.extend(local.exercised.iter().cloned());
-        f26_texts.extend(local.f26_seen.iter().cloned());
         local.merge_into(report);
     }
     // coverage of the break table by real dense outputs
@@ -823,14 +810,6 @@ pub fn run(report: &mut Report, replay: Option<&str>) {
             "adjacency family: {} entries have a witness block that did not make the dense generator consult the pair: {}",
             witness_missed.len(),
             witness_missed.iter().take(20).cloned().collect::<Vec<_>>().join(" ")
-        ));
-    }
-    f26_texts.sort_by_key(|t| t.len());
-    f26_texts.dedup();
-    if !f26_texts.is_empty() {
-        report.notes.push(format!(
-            "trees outside H3 (statement text ends with a parenthesis the printer adds, next statement starts with `(`, no `;` written) were generated and read back as a call, as finding F26 says; e.g. {:?}",
-            f26_texts.iter().take(2).collect::<Vec<_>>()
         ));
     }
     // both kinds are reported (capped per check key by `Report::violation`): a correspondence
